@@ -306,6 +306,13 @@ impl BDF {
             let mut h_signed = direction * h_try;
             let x_start = x;
             let mut x_new = x + h_signed;
+            // Step size guard against stagnation (on the trial step: a last step shortened to
+            // the few ulps that remain before xend is still taken)
+            if (x + 0.1 * h_signed.abs()) == x {
+                status = Status::StepSizeTooSmall;
+                break;
+            }
+
             if direction * (x_new - xend) > 0.0 {
                 let step_to_end = (xend - x).abs();
                 if step_to_end == 0.0 {
@@ -320,12 +327,6 @@ impl BDF {
                 x_new = xend;
                 n_equal_steps = 0;
                 lu_is_current = false;  // Step size changed
-            }
-
-            // Step size guard against stagnation
-            if (x + 0.1 * h_signed.abs()) == x {
-                status = Status::StepSizeTooSmall;
-                break;
             }
 
             steps.total += 1;
